@@ -154,6 +154,10 @@ func (p *Parser) parseIter(t *tree.Tree, level *int) (prevTok Token, err error) 
 		case CLOSEPAR:
 			prevTok = tok
 			(*level)--
+			if *level < 0 {
+				err = errors.New("newick Error: Mismatched parenthesis: closing parenthesis after the end of the tree")
+				return
+			}
 			if _, _, err = nodeStack.Pop(); err != nil {
 				err = errors.New("newick Error: Closing parenthesis while the stack is already empty")
 				return
